@@ -25,6 +25,8 @@ type IntroCase struct {
 	Schema *model.Schema `json:"schema"`
 	// Append: object types left out of NewSchema and appended afterwards, in this order.
 	Append []string `json:"append,omitempty"`
+	// Omit: types left out of NewSchema and never appended themselves: they arrive through an appended type.
+	Omit []string `json:"omit,omitempty"`
 }
 
 const introQuery = `query Intro { __schema { queryType { name } mutationType { name } subscriptionType { name }
@@ -397,7 +399,7 @@ func c10Oracle(c *IntroCase) (msg string) {
 		}
 	}
 	// the library-side types are built from the full model so that appended types exist
-	b, err := build.New(full, &ref.World{S: full}, build.Options{Omit: c.Append})
+	b, err := build.New(full, &ref.World{S: full}, build.Options{Omit: append(append([]string{}, c.Append...), c.Omit...)})
 	if err != nil {
 		return "HARNESS: schema rejected: " + err.Error()
 	}
@@ -479,17 +481,8 @@ func TestC10(t *testing.T) {
 		s := gen.Schema(rt, gen.SchemaOpts{Mutation: gen.Chance(rt, 50, "mutation"), Subscription: gen.Chance(rt, 30, "subscription"),
 			Descriptions: true, Directives: true, MaxWrap: 4, ExtraObjects: true})
 		c := &IntroCase{Schema: s}
-		// appendable: object types nothing refers to
-		if gen.Chance(rt, 50, "appendSome") {
-			for _, td := range s.Types {
-				if strings.HasPrefix(td.Name, "X") && td.Kind == model.KObject && gen.Chance(rt, 60, "appendThis") {
-					c.Append = append(c.Append, td.Name)
-				}
-			}
-			if len(c.Append) == 2 && gen.Chance(rt, 50, "swapAppend") {
-				c.Append[0], c.Append[1] = c.Append[1], c.Append[0]
-			}
-		}
+		// appendable: object types nothing refers to, and the union XU of them
+		drawAppend(rt, s, &c.Append, &c.Omit)
 		msg := c10Oracle(c)
 		nonScalarDefault, multiImpl := false, false
 		for _, td := range s.Types {
@@ -528,4 +521,46 @@ func TestC10(t *testing.T) {
 			violation(rt, "C10", "introspection", c, "%s", msg)
 		}
 	})
+}
+
+// drawAppend chooses which of the unreferenced types X0.., XU are left out of NewSchema and
+// appended afterwards, and which are left out and arrive only through the appended union.
+func drawAppend(rt *rapid.T, s *model.Schema, app, omit *[]string) {
+	if !gen.Chance(rt, 60, "appendSome") {
+		return
+	}
+	var objs []string
+	union := false
+	for _, td := range s.Types {
+		if strings.HasPrefix(td.Name, "X") && td.Kind == model.KObject {
+			objs = append(objs, td.Name)
+		}
+		union = union || td.Name == "XU"
+	}
+	if union && gen.Chance(rt, 60, "appendUnion") {
+		// the union is appended; each member is appended too (before or after it) or arrives through it
+		*app = []string{"XU"}
+		for _, o := range objs {
+			switch gen.Uniform(rt, 3, "memberMode") {
+			case 0:
+				*omit = append(*omit, o)
+			case 1:
+				*app = append(*app, o)
+			default:
+				*app = append([]string{o}, *app...)
+			}
+		}
+		return
+	}
+	if union {
+		return // the union is supplied up front and brings its members with it
+	}
+	for _, o := range objs {
+		if gen.Chance(rt, 60, "appendThis") {
+			*app = append(*app, o)
+		}
+	}
+	if len(*app) == 2 && gen.Chance(rt, 50, "swapAppend") {
+		(*app)[0], (*app)[1] = (*app)[1], (*app)[0]
+	}
 }
